@@ -25,7 +25,7 @@ PROP = {
                   "read-then-rebuild steps through every access path the type has are run against a [bits; N] model; after every step all read paths (fields/Deref overlay, Index, "
                   "to_array, write_to_slice, Into<array>, Into<tuple>, AsRef, Debug, Display) must agree with the model bit-for-bit (text parsed back, NaN by class). All named "
                   "constants are checked exhaustively against their documented values. SSE2, scalar-math and nightly core-simd builds. Failures shrink to a minimal history saved as a replay file. "
-                  "Exploration, not proof (the constants sub-checks are exhaustive).",
+                  "Exploration, not proof (the constants sub-checks are exhaustive). from_slice / write_to_slice also go through exactly sized heap slices in an AddressSanitizer build of the SSE2 + scalar binary, and a nightly -Zrandomize-layout build shuffles every struct layout the language does not fix.",
     "level_note": "Trusted: rustc's float formatting/parsing (shortest round-trip) for the text paths, proptest, the harness. The hidden lane of Vec3A is not part of the model "
                   "(C08 covers it). The libFuzzer byte-decoded history target of the DESIGN block is not built. NEON/wasm32 layouts cannot be built here.",
     "design_ref": "DESIGN.md section 5 C17",
